@@ -30,10 +30,31 @@ def theorem_names(path, prefix):
     return re.findall(r"\bTheorem\s+(%s\w+)" % prefix, txt)
 
 
-def known_class(ctx, it):
+def _branches(s):
+    return [b for b in (s.get("oneOf") or s.get("anyOf") or []) if isinstance(b, dict) and b.get("type") == "object"]
+
+
+def known_class(ctx, ex, it):
+    """Map a valid-but-rejected item to a listed finding (narrow classes)."""
+    doc = ex.docs[it["m"]]
+    s = doc["definitions"][it["name"]]
+    ent = ex.dumps[it["m"]]["entries"].get(str(it["tid"]), {})
+    err = json.dumps(it["out"])
+    br = _branches(s)
     for f in ctx.findings_for():
-        if f.get("class") == "recursion-limit" and "recursion limit" in json.dumps(it["out"]):
-            return f
+        cls = f.get("class")
+        if cls == "mixed-closedness-tagged-enum":
+            closed = [b.get("additionalProperties") is False for b in br]
+            if ent.get("kind") == "enum" and ent.get("deny") and br and any(closed) and not all(closed) \
+                    and "unknown field" in err:
+                return f
+        if cls == "internal-document-read-as-adjacent":
+            if ent.get("kind") == "enum" and ent.get("tag", {}).get("k") == "adjacent":
+                content = ent["tag"]["content"]
+                open_without = [b for b in br if content not in b.get("properties", {})
+                                and b.get("additionalProperties") is not False]
+                if open_without and isinstance(it["v"], dict) and content in it["v"]:
+                    return f
     return None
 
 
@@ -121,12 +142,14 @@ def run(ctx):
                 skipped += 1
                 continue
             viol.append({"kind": "valid-instance-rejected", "document": ex.docs[it["m"]], "definition": it["name"],
-                         "instance": it["v"], "compiled_answer": it["out"], "stream": ex.stream[it["m"]]})
+                         "instance": it["v"], "compiled_answer": it["out"], "stream": ex.stream[it["m"]], "_item": it})
     n_valid = len([it for it in ex.items if it["valid"] is True])
     ctx.coverage["direct_property_evaluations"] = n_valid
     ctx.coverage["skipped_no_compiled_type"] = skipped
-    ctx.oblige("direct evaluation: every oracle-valid instance is accepted by the compiled type (%d instances)" % n_valid,
-               not viol, json.dumps(viol[:2])[:1500])
+    n_unlisted = len([v for v in viol if not known_class(ctx, ex, v["_item"])])
+    ctx.oblige("direct evaluation: every oracle-valid instance is accepted by the compiled type (%d instances; "
+               "listed finding classes apart)" % n_valid, n_unlisted == 0,
+               json.dumps([{k: x for k, x in v.items() if k != "_item"} for v in viol[:2]])[:1500])
 
     # ---- generation failures on the grammar are C01's subject, but a silently empty world would hide C02
     n_ok = len([s for s in ex.world.status if s == "ok"])
@@ -183,7 +206,14 @@ def run(ctx):
     # ---- verdict
     unlisted = []
     for v in viol:
-        unlisted.append(v)
+        f = known_class(ctx, ex, v["_item"])
+        v.pop("_item")
+        if f:
+            ctx.known_finding(f["id"], "%s: %s (e.g. definition %s instance %s)" % (
+                f["id"], f["summary"][:300], json.dumps(v["document"]["definitions"][v["definition"]])[:300],
+                json.dumps(v["instance"])[:120]))
+        else:
+            unlisted.append(v)
     if unlisted:
         unlisted.sort(key=lambda v: len(json.dumps(v["document"])))
         v = unlisted[0]
